@@ -127,6 +127,7 @@ class Tr:
             base = c.bases[0].id
             if base == 'Optimizer':
                 t2, s2 = parse(self.repo, 'opytimizer/core/optimizer.py')
+                sink_branch_locals(t2)
                 out.append((find_class(t2, 'Optimizer'), 'opytimizer/core/optimizer.py', s2, t2))
                 return out
             # find import of base
